@@ -12,7 +12,7 @@ Tie of the translated leaf function: harness/c06_exitstatus.c #includes step-exe
 the compiled exitstatus() for every 16-bit status (and wider ones) x {0, SIGALRM, SIGTERM};
 every line is compared with the Gallina translation (Gen_Exec.exitstatus) and with exit_spec.
 """
-import glob, hashlib, json, os, re, shutil, signal, subprocess
+import glob, hashlib, json, os, re, shutil, signal, subprocess, time
 from concurrent.futures import ThreadPoolExecutor
 import common
 from common import hexs
@@ -31,6 +31,9 @@ TRUSTED = [
     'the view of the parsed configuration; the view the harness builds by hand next to every file (cfg_view) is compared on every '
     'step case with what the parser model makes of the file (driver cf `resolve`, lane "view vs parsed configuration")',
     'tools/argvdelay.c (LD_PRELOAD: setsid sleeps) stands for a child that is not scheduled within the second step_fork waits',
+    'tools/argvnullexec.c: what execvp(NULL, {NULL}) does on THIS platform (glibc: the caller dies from SIGSEGV; other C libraries '
+    'return -1) is measured once per check and handed to the model as the kernel\'s answer for the empty vector; the property\'s '
+    '"rather than a crash" is judged on the runner\'s status (128+N = the forked child of robsd-exec died from signal N)',
     'C09\'s model of interpolate.c (Interp/InterpDefs.v) is reused for every argument',
     'tools/argvprobe.c (probe), harness/c06_exitstatus.c; a stopped (SIGSTOP/SIGTSTP/...) step is not exercised (the runner waits for it)',
 ]
@@ -215,6 +218,33 @@ def gen_slow_case(rng):
     return c
 
 
+def gen_slow_term_case(rng):
+    """... and while the parent waits for the held-up child on the "process group failure" path, a SIGTERM reaches it
+    (model run_fork/HsLateIntr; C07's window signal-during-group-failure seen from C06's side)"""
+    c = gen_slow_case(rng)
+    c['term_ms'] = 2200
+    return c
+
+
+def gen_multifail_case(rng):
+    """robsd-regress with two or more names that fail to interpolate in DIFFERENT ways (and names written twice with
+    and without no-parallel): which diagnostic robsd-exec prints depends on the order in which config_get_steps meets
+    the commands - fixed steps up to mount, tests without a no-parallel option on any of their entries in
+    configuration order, then the others, then the fixed rest"""
+    bad = ['$', 'a${nope}', '${', 'b${}', 'c${x', '$$', 'x${builddir}']
+    good = ['test/one', 'x${keep}', 'bin/ls']
+    k = rng.randint(2, 5)
+    names = [rng.choice(bad) for _ in range(rng.randint(2, 3))] + [rng.choice(good) for _ in range(max(0, k - 2))]
+    if rng.random() < 0.6:
+        names.append(rng.choice(names))          # one path twice, the flags drawn independently
+    rng.shuffle(names)
+    regress = [[n, rng.random() < 0.5] for n in names]
+    conf = {'mode': 'robsd-regress', 'hook': None, 'running': None, 'regress': regress, 'timeout': None}
+    name = rng.choice(['env', 'end', 'umount', 'nein'] + [n for n, _ in regress])
+    return {'kind': 'step', 'conf': conf, 'trace': rng.randint(0, 1), 'name': H(name),
+            'execdir': rng.choice([None, '@ROOT@/exec', '/x y']), 'probe': gen_probe(rng)}
+
+
 def gen_timeout_case(rng):
     conf = {'mode': 'robsd-regress', 'hook': None, 'running': None, 'regress': [['bin/slow', rng.random() < 0.5]], 'timeout': 1}
     return {'kind': 'step', 'conf': conf, 'trace': rng.randint(0, 1), 'name': H('bin/slow'), 'execdir': '@ROOT@/exec',
@@ -339,14 +369,15 @@ def cfg_view(case, paths, machine):
             lines.append('regress-timeout %ds' % conf['timeout'])
             vars_.append(('regress-timeout', str(conf['timeout'])))
         regress_toks = [str(len(conf['regress']))]
-        seen = False
+        # no-parallel is stored as the variable regress-<path>-parallel: it belongs to the PATH, whichever of the
+        # entries of that path carries it (is_parallel looks the variable up by name), so a path written twice runs
+        # in the same pass both times
+        nopar_paths = {name for name, nopar in conf['regress'] if nopar}
         for name, nopar in conf['regress']:
             lines.append('regress ' + q(name) + (' no-parallel' if nopar else ''))
             if nopar:
                 vars_.append(('regress-%s-parallel' % name, '0'))
-            if not seen:
-                seen = True
-            regress_toks += [H(name), '0' if nopar else '1']
+            regress_toks += [H(name), '0' if name in nopar_paths else '1']
         vars_.append(('regress', ' '.join(n for n, _ in conf['regress'])))
     if mode == 'canvas':
         canvas_toks = [str(len(conf['steps']))]
@@ -415,6 +446,21 @@ class World:
         r = common.sh(['cc', '-shared', '-fPIC', '-O1', '-o', self.delay_so, os.path.join(common.VERIF, 'tools', 'argvdelay.c'), '-ldl'])
         if r.returncode != 0:
             raise common.BuildFailure('argvdelay: ' + r.stdout[-1500:])
+        # how long step_fork waits for the child's setsid(): waiteof(proc_pipe[0], <ms>)
+        mm = re.search(r'waiteof\(proc_pipe\[0\],\s*(\d+)\)', open(os.path.join(common.REPO, 'step-exec.c')).read())
+        if not mm:
+            raise common.BuildFailure('step-exec.c: the handshake wait waiteof(proc_pipe[0], <ms>) was not found')
+        self.handshake_ms = int(mm.group(1))
+        # what execvp(NULL, {NULL}) does on this platform
+        ne = os.path.join(self.bin, 'argvnullexec')
+        r = common.sh(['cc', '-O1', '-w', '-o', ne, os.path.join(common.VERIF, 'tools', 'argvnullexec.c')])
+        if r.returncode != 0:
+            raise common.BuildFailure('argvnullexec: ' + r.stdout[-1500:])
+        r = subprocess.run([ne], stdout=subprocess.PIPE, timeout=20)
+        self.nullexec = r.stdout.decode().strip()
+        if r.returncode != 0 or not re.fullmatch(r'x|w\d+', self.nullexec):
+            raise common.BuildFailure('argvnullexec: no answer (%d, %r)' % (r.returncode, r.stdout))
+        os.unlink(ne)
         # the parser model of C08/C10 (driver cf) and the facts about this machine it takes as inputs
         self.cf = ctx.build_driver('cf', withz=True)
         self.cw = cc.World(ctx, self.impl)
@@ -463,9 +509,25 @@ class World:
             for v in case['vs']:
                 args += ['-v', bytes.fromhex(v)]
         try:
-            r = subprocess.run(args, env=self.env(case, p), cwd=p['dir'], stdin=subprocess.DEVNULL,
-                               stdout=subprocess.PIPE, stderr=subprocess.PIPE, timeout=40)
-            rc, out, err = r.returncode, r.stdout, r.stderr
+            if case.get('term_ms'):
+                # a SIGTERM to the runner at a fixed time after its start (it has given up on the handshake by then and
+                # is blocked in waitpid(pid)); the held-up child goes on and executes the command after the runner has left
+                pr = subprocess.Popen(args, env=self.env(case, p), cwd=p['dir'], stdin=subprocess.DEVNULL,
+                                      stdout=subprocess.PIPE, stderr=subprocess.PIPE)
+                try:
+                    out, err = pr.communicate(timeout=case['term_ms'] / 1000.0)
+                except subprocess.TimeoutExpired:
+                    pr.send_signal(signal.SIGTERM)
+                    out, err = pr.communicate(timeout=40)
+                rc = pr.returncode
+                end = time.time() + case.get('slow_ms', 0) / 1000.0 + 2.0
+                while not os.path.exists(p['dump']) and time.time() < end:
+                    time.sleep(0.05)
+                time.sleep(0.1)
+            else:
+                r = subprocess.run(args, env=self.env(case, p), cwd=p['dir'], stdin=subprocess.DEVNULL,
+                                   stdout=subprocess.PIPE, stderr=subprocess.PIPE, timeout=40)
+                rc, out, err = r.returncode, r.stdout, r.stderr
         except subprocess.TimeoutExpired:
             rc, out, err = -999, b'', b'harness timeout'
         dump = None
@@ -496,6 +558,8 @@ def classify_stderr(err, prog):
             out.append('interp:' + k)
         elif msg.endswith(': step script not found'):
             out.append('notfound')
+        elif msg.endswith(': empty step command'):
+            out.append('emptycmd')
         elif re.match(r'^process group exited (-?\d+)$', msg):
             out.append('exited:' + re.match(r'^process group exited (-?\d+)$', msg).group(1))
         elif re.match(r'^(caught signal \d+, kill process group|sending term signal|sending kill signal)$', msg):
@@ -551,16 +615,6 @@ def kernel_for(case, target):
     return 'e%d' % c, 'w%d' % (c * 256), 0
 
 
-def propose(res, pid, f):
-    """an oracle failure of a defect class that was reported but may not be in known_findings.json yet: it counts as
-    an oracle failure once the entry exists, until then it is recorded in the evidence only"""
-    if common.match_known(pid, f['signature']):
-        res.oracle_failures.append(f)
-    else:
-        res.extra.setdefault('proposed_findings', {}).setdefault(f['signature'], f['what'])
-        res.count('proposed finding, not in known_findings.json yet: ' + f['signature'])
-
-
 def check_view(w, cases, prepared, a1, res):
     """the view the harness builds by hand (cfg_view) against what the parser model of C08/C10 makes of the same file:
     `resolve` of driver cf on the configuration text must give the vector `expect` of driver av gives on the view"""
@@ -609,11 +663,16 @@ def evaluate(ctx, cases, res, world=None):
             exp_argv = [common.unhex(x) for x in t[2:]]
         target = exec_target(exp_argv[0] if exp_argv else None, w)
         kx, kern, gotsig = kernel_for(c, target)
+        if c['kind'] == 'step' and a == 'R 0':
+            # nothing is left of the command: the child calls execvp(NULL, {NULL}); the kernel function of the model
+            # answers what this platform was measured to do (tools/argvnullexec.c)
+            kern = w.nullexec
         meta.append((exp_argv, target, kx))
         if c['kind'] == 'step':
             if c.get('slow_ms'):
                 # the child reaches setsid() only after the parent has given up on the handshake
-                q2.append(' '.join(['runfork', 'c', str(c['trace']), c['name'] or '-', kern, str(gotsig), 'late'] + toks))
+                q2.append(' '.join(['runfork', 'c', str(c['trace']), c['name'] or '-', kern, str(gotsig),
+                                    'lateintr' if c.get('term_ms') else 'late'] + toks))
             else:
                 q2.append(' '.join(['run', 'c', str(c['trace']), c['name'] or '-', kern, str(gotsig)] + toks))
             q2.append(' '.join(['okstep', str(c['trace']), c['name'] or '-', kx] + obs_tokens(dump, rc, err) + toks))
@@ -648,12 +707,16 @@ def evaluate(ctx, cases, res, world=None):
             else:
                 impl_s = 'F %d %s' % (rc, classes[0] if classes else '-')
             res.count('hook mode=%s model=%s kx=%s' % (c['conf']['mode'], model.split()[0], kx[0]))
-        if c['kind'] == 'step' and a1[i] == 'R 0' and model.startswith('E n ') and rc > 0 and dump is None and classes:
-            # every element rendered empty: the child calls execvp(NULL, {NULL}), which is undefined in libc (glibc
-            # dereferences the name: the forked child dies from SIGSEGV and the runner reports 139; elsewhere EFAULT
-            # and 1).  Both are "non-zero with a diagnostic"; the exact status is not compared.
-            res.count('step: every element rendered empty (execvp(NULL))')
-            model = impl_s = 'E n nonzero diagnosed'
+        empty_cmd = c['kind'] == 'step' and a1[i] == 'R 0'
+        if empty_cmd:
+            # PREDICATE ON THE CASE: the specification expects the empty vector (every element of the command rendered
+            # empty).  Since /repo 8e76449 step_exec refuses it ("empty step command", status 1, nothing forked); the model
+            # follows the source (switch Gen_Exec.empty_command_checked).  Without that test the child calls
+            # execvp(NULL, {NULL}), undefined in POSIX: glibc dereferences the name (the forked child - still robsd-exec's
+            # own code - dies from SIGSEGV, the runner reports 139), other C libraries return -1 and the child leaves
+            # through err(1); the model is then given the measured platform answer, so the status IS compared, and the
+            # property's "non-zero status with a diagnostic RATHER THAN A CRASH" is judged below (fires if the fix is reverted).
+            res.count('step: every element rendered empty (execvp(NULL)); this platform: %s' % w.nullexec)
         if dump is not None and exp_argv is not None and dump == exp_argv:
             if kx[0] == 's':
                 res.extra.setdefault('signals_delivered', set()).add(int(kx[1:]))
@@ -666,16 +729,36 @@ def evaluate(ctx, cases, res, world=None):
         if c.get('slow_ms'):
             res.count('step: fork handshake timed out (setsid delayed %d ms) kx=%s' % (c['slow_ms'], kx[0]))
             res.extra['handshake_cases'] = res.extra.get('handshake_cases', 0) + 1
-        if ok != '1':
+        if empty_cmd and c['kind'] == 'step' and rc >= 128 and 'exited:%d' % rc in classes:
+            # the literal reading of "rather than a crash" (theorem C06_empty_argv_no_crash_refuted): nothing could be
+            # started, and the outcome is the death of robsd-exec's own forked child from signal rc-128, reported only
+            # as "process group exited <rc>"
+            res.oracle_failures.append({'case': c, 'signature': 'empty-command-child-crashes',
+                                        'what': 'every element of the command of the step renders empty: the forked child of robsd-exec '
+                                                'calls execvp(NULL, ...) and dies from signal %d (glibc); robsd-exec exits %d and names no '
+                                                'reason ("process group exited %d")' % (rc - 128, rc, rc),
+                                        'impl': impl_s, 'expected': a1[i], 'stderr': err[-300:].decode('latin1')})
+        if c.get('term_ms'):
+            # OUTSIDE the property's quantifier (inputs and configurations): a signal was sent to the RUNNER.  What a
+            # SIGTERM does to the step is C07's subject (known finding signal-during-group-failure); here the oracle does
+            # not judge the status, the model (run_fork/HsLateIntr, proved to be C07's transition system on this path:
+            # C06_late_handshake_sigterm) is compared with the implementation above.
+            res.count('outside: SIGTERM sent to the runner on the "process group failure" path (model compared, oracle not applied)')
+        elif ok != '1':
             sig, what = classify_failure(c, rc, dump, err, exp_argv, kx, a1[i])
             f = {'case': c, 'signature': sig, 'what': what, 'impl': impl_s, 'expected': a1[i], 'stderr': err[-300:].decode('latin1')}
-            if c.get('slow_ms') and sig == 'exit-status-not-faithful' and kx == 'e0' and rc == 1 and 'groupfail' in classes:
+            # KNOWN FINDING handshake-timeout-masks-exit-zero, recognised by a predicate on the CASE: the shim delayed the
+            # child's setsid() beyond the time step_fork waits for it (read from the source) AND the command was arranged
+            # to exit 0 - plus the exact shape the theorem C06_exit_zero_iff_refuted_handshake predicts (the command ran
+            # with its vector, the runner said "process group failure" and exited 1).  Anything else on such a case keeps
+            # its own signature.
+            if (c.get('slow_ms', 0) > w.handshake_ms and kx == 'e0' and sig == 'exit-status-not-faithful'
+                    and dump is not None and dump == exp_argv and rc == 1 and classes == ['groupfail']):
                 f['signature'] = 'handshake-timeout-masks-exit-zero'
                 f['what'] = ('the command ran and exited 0, robsd-exec printed "process group failure" and exited 1 '
-                             '(step_fork gave up waiting for setsid() in the child after one second)')
-                propose(res, 'C06', f)
-            else:
-                res.oracle_failures.append(f)
+                             '(step_fork gave up waiting %d ms for setsid() in the child, which the shim delayed by %d ms)'
+                             % (w.handshake_ms, c['slow_ms']))
+            res.oracle_failures.append(f)
         elif c['kind'] == 'hook' and dump is not None and exp_argv is not None:
             # the probe replaced robsd-hook: its status must be the requested one
             pr = c['probe']
@@ -758,7 +841,11 @@ def check_exitstatus(ctx, w, res):
 # ---- entry points ------------------------------------------------------------------------------------------
 
 def load_corpus():
-    return [json.load(open(p)) for p in sorted(glob.glob(os.path.join(common.VERIF, 'corpus', 'C06', '*.json')))]
+    d = os.path.join(common.VERIF, 'corpus', 'C06')
+    files = sorted(glob.glob(os.path.join(d, '*.json')))
+    if not files:
+        raise common.BuildFailure('corpus/C06 is missing or empty: the cases of the repaired and known findings would not run')
+    return [json.load(open(p)) for p in files]
 
 
 def run(ctx, n=None, exits_all=None):
@@ -768,7 +855,8 @@ def run(ctx, n=None, exits_all=None):
                 'through nested values / failing in 15 ways, in the requested step or in another one; first element the probe, `sh` via '
                 'PATH, ${canvas-dir}/argvprobe, missing, not executable, rendering empty; duplicate and shadowing step names; unknown '
                 'names) and the four script modes (every static step, regress entries incl. names colliding with static steps, EXECDIR '
-                'with spaces, globs, =, nested ${robsddir}, failing), trace on/off; the command exits with a code in 0..255, dies from '
+                'with spaces, globs, =, nested ${robsddir}, failing; a stream of robsd-regress configurations with two or more names failing to '
+                'interpolate in different ways and paths written twice with and without no-parallel), trace on/off; the command exits with a code in 0..255, dies from '
                 'every signal but the stopping ones, or outlives regress-timeout; a few runs with the forked child held up before setsid() '
                 '(LD_PRELOAD, tools/argvdelay.c) so that the fork handshake of step_fork times out (model run_fork/HsLate); every step case '
                 'also resolved by the parser model of C08/C10 on the configuration FILE and compared with the hand-built view.  '
@@ -790,10 +878,14 @@ def run(ctx, n=None, exits_all=None):
         cases.append(gen_run_case(rng, pr))
     for _ in range(n):
         cases.append(gen_step_case(rng))
+    for _ in range(ctx.budget(16, 400)):
+        cases.append(gen_multifail_case(rng))
     for _ in range(ctx.budget(2, 6)):
         cases.append(gen_timeout_case(rng))
     for _ in range(ctx.budget(5, 16)):
         cases.append(gen_slow_case(rng))
+    for _ in range(ctx.budget(2, 8)):
+        cases.append(gen_slow_term_case(rng))
     for _ in range(max(60, n // 2)):
         cases.append(gen_hook_case(rng))
     res.samples = [c for c in cases if c['kind'] == 'step'][1:3] + [c for c in cases if c['kind'] == 'hook'][:1]
@@ -808,6 +900,7 @@ def run(ctx, n=None, exits_all=None):
     if missing and not res.oracle_failures and not res.disagreements:
         res.tie_errors.append('generator: no case delivered signal(s) %r to a command' % missing)
     res.extra['find_step_null_checked_in_source'] = common.run_driver(w.drv, ['variant'])[0] == '1'
+    res.extra['empty_command_checked_in_source'] = common.run_driver(w.drv, ['emptychk'])[0] == '1'
     return res
 
 
@@ -832,4 +925,11 @@ def replay(ctx, rep):
     print('case:', json.dumps(case))
     print('disagreements (model vs implementation):', json.dumps(res.disagreements, indent=1))
     print('oracle failures (spec_ok on the implementation):', json.dumps(res.oracle_failures, indent=1))
-    return 1 if (res.disagreements or res.oracle_failures or res.tie_errors) else 0
+    unknown = []
+    for f in res.oracle_failures:
+        k = common.match_known(ctx.pid, f.get('signature'))
+        if k:
+            print('KNOWN-FINDING: property=%s %s' % (ctx.pid, k['what']))
+        else:
+            unknown.append(f)
+    return 1 if (res.disagreements or unknown or res.tie_errors) else 0
